@@ -241,7 +241,12 @@ def check_scoping(run: common.Run, node: Tuple, env: Dict[str, Tuple[str, Any]],
                 return (("value", so[2]) if so[0] == "value" else so) != e
 
             c = localize.culprit(node, disagree)
-            is_has = r == "C" and (localize.has_operand(c) or localize.python_bool_from_has(c, lambda sub: cel.evaluate(ir.render(sub), binds, "C")))
+            def _agrees(w: Tuple) -> bool:
+                so = cel.evaluate(ir.render(w), binds, "C")
+                return (("value", so[2]) if so[0] == "value" else so) == ref_outcome(c, renv)
+
+            is_has = r == "C" and (localize.has_operand(c) or localize.python_bool_from_has(c, lambda sub: cel.evaluate(ir.render(sub), binds, "C"))
+                                   or localize.has_bool_is_root_cause(c, _agrees))
             key = f"{r}-scope-{localize.describe(c)}{'-has-operand' if is_has else ''}-{'collision' if collides(c) else 'no-collision'}"
             report(key, {"src": src, "node": node, "env": {k: list(v) for k, v in env.items()}, "route": r}, f"{ir.render(c)[:140]}: reference {exp} got {str(got)[:120]}")
     run.sample({"src": src, "outer": {k: v[1] for k, v in env.items() if k in ("x", "y")}}, bucket="scope")
